@@ -106,10 +106,17 @@ Fixpoint widen_up (fuel : nat) (nbin : Z) (zone : list Q) (hi : Z) : Z :=
   | O => hi
   | S f => if (hi <? nbin) && kf_cos_resolution (nth (Z.to_nat (hi + 1)) zone 1%Q) then widen_up f nbin zone (hi + 1) else hi
   end.
+(* The class concerns the COVER only (the circle of radius rmax/scale handed to SpatialDomain as the
+   double cos(maxangle)): a pair that lies inside the last bin but is not resolved against the outer
+   edge rmax may be missing from the cover, i.e. may be left uncounted.  Nothing else is relaxed: the
+   inner edges are decided by the repaired gcirc, which resolves separations, not cosines.
+   (widen_down / widen_up above are no longer used; they relaxed every edge, which also hid the
+   repaired gcirc defect.) *)
 Definition range_relaxed (nbin : Z) (p : rawpair) (zone : list Q) : Z * Z :=
   let r := range_strict nbin p in
   if fst p =? 0 then r
-  else (widen_down (S (Z.to_nat nbin)) zone (fst r), widen_up (S (Z.to_nat nbin)) nbin zone (snd r)).
+  else if (snd r =? nbin - 1) && kf_cos_resolution (nth (Z.to_nat nbin) zone 1%Q) then (fst r, nbin)
+  else r.
 
 Definition zpair_eqb (a b : Z * Z) : bool := (fst a =? fst b) && (snd a =? snd b).
 Fixpoint assoc (key : Z * Z) (l : list ((Z * Z) * list Q)) : option (list Q) :=
@@ -199,6 +206,69 @@ Definition k_bincount nbin minid maxid runs ids2 covers pairs zones (outs : list
 Definition show_bincount nbin minid maxid runs ids2 covers pairs :=
   (model_lo false nbin minid maxid runs covers pairs [],
    model_amb false nbin minid maxid runs covers pairs [],
+   brute_lo false nbin ids2 covers pairs [],
+   brute_amb false nbin ids2 covers pairs [],
+   (window_check minid maxid ids2,
+    covers_check nbin (revf runs) minid maxid ids2 (binof_def false nbin pairs []) 0 covers)).
+
+(* ------------------------------------------------------------------------------------------ *)
+(* bincount with the bin-number function read from the source on every run                     *)
+(* ------------------------------------------------------------------------------------------ *)
+(* harness/props/c13_translate.py reads `int radbin = (int) floor(q)` / `(int) (q)` out of htmc.cc and
+   passes [radbin] / [radbin_cast] as [index]: the MODEL side follows the code under test, the
+   PROPERTY side (brute_lo / brute_amb above) is always the floor of the statement. *)
+Definition xrange_strict (index : Q -> Z) (nbin : Z) (p : rawpair) : Z * Z :=
+  let '(tag, v) := p in
+  clip nbin (if tag =? 1 then let k := index (q_of v) in (k, k)
+             else if tag =? 2 then (index ((2 * v - 1) # 2), v) else (-1, -1)).
+Definition xrange_relaxed (index : Q -> Z) (nbin : Z) (p : rawpair) (zone : list Q) : Z * Z :=
+  let r := xrange_strict index nbin p in
+  if fst p =? 0 then r
+  else if (snd r =? nbin - 1) && kf_cos_resolution (nth (Z.to_nat nbin) zone 1%Q) then (fst r, nbin)
+  else r.
+
+Section BCX.
+  Variable index : Q -> Z.
+  Variable relaxed : bool.
+  Variable nbin minid maxid : Z.
+  Variable runs : list (Z * Z).
+  Variable covers : list (list Z).
+  Variable pairs : list (list rawpair).
+  Variable zones : list ((Z * Z) * list Q).
+
+  Definition xrange_of (i1 i2 : Z) : Z * Z :=
+    if relaxed then
+      match assoc (i1, i2) zones with
+      | Some z => xrange_relaxed index nbin (pair_at pairs i1 i2) z
+      | None => xrange_strict index nbin (pair_at pairs i1 i2)
+      end
+    else xrange_strict index nbin (pair_at pairs i1 i2).
+  Definition xbinof_def (i1 i2 : Z) : option Z :=
+    let r := xrange_of i1 i2 in
+    if fst r =? snd r then Some (fst r) else None.
+  Definition xvisited_ranges : list (Z * Z) :=
+    flat_map (fun ic => map (xrange_of (fst ic)) (candidates (revf runs) minid maxid (snd ic)))
+             (combine (zseq 0 (n1 covers)) covers).
+  Definition xmodel_lo : list Z := cbincount nbin (revf runs) minid maxid xbinof_def covers.
+  Definition xmodel_amb : list Z := map (amb_count xvisited_ranges) (bins nbin).
+  Definition xbc_agree (outs : list (list Z)) : bool :=
+    match outs with [] => false | o :: _ => between xmodel_lo xmodel_amb o end.
+End BCX.
+
+(* code 0 = floor, 1 = C cast *)
+Definition index_of (code : Z) : Q -> Z := if code =? 1 then radbin_cast else radbin.
+
+Definition v_bincount_x code nbin minid maxid runs ids2 covers pairs (outs : list (list Z)) : Z :=
+  verdict (xbc_agree (index_of code) false nbin minid maxid runs covers pairs [] outs)
+          (bc_ok false nbin minid maxid runs ids2 covers pairs [] outs).
+Definition k_bincount_x code nbin minid maxid runs ids2 covers pairs zones (outs : list (list Z)) : Z :=
+  if negb (bc_ok false nbin minid maxid runs ids2 covers pairs [] outs)
+     && bc_ok true nbin minid maxid runs ids2 covers pairs zones outs
+     && xbc_agree (index_of code) true nbin minid maxid runs covers pairs zones outs
+  then 1 else 0.
+Definition show_bincount_x code nbin minid maxid runs ids2 covers pairs :=
+  (xmodel_lo (index_of code) false nbin minid maxid runs covers pairs [],
+   xmodel_amb (index_of code) false nbin minid maxid runs covers pairs [],
    brute_lo false nbin ids2 covers pairs [],
    brute_amb false nbin ids2 covers pairs [],
    (window_check minid maxid ids2,
